@@ -178,82 +178,160 @@ fn any_cfg(nw: usize) -> Cfg {
     c
 }
 
-// Run `steps` scheduler steps; `max_coll` bounds the number of poll_wake calls the main thread may start
-// (callback-triggered or spurious).  Executions that are not finished inside the bound are discarded.
-fn interleave(nw: usize, steps: usize, max_spurious: u8) {
-    let c = any_cfg(nw);
-    let mut s = St::new();
-    let mut spurious: u8 = 0;
-    let mut k = 0;
-    while k < steps {
-        let who: u8 = kani::any();
-        kani::assume(who <= NW as u8);
-        if (who as usize) < NW {
-            let i = who as usize;
-            if c.active[i] && s.wpc[i] < 4 {
-                s.waker_step(&c, i);
-            }
-        } else {
-            // main thread: continue a collection, or start one if there is a poll event (or spuriously)
-            if s.cpc != 0 {
-                s.collector_step(&c);
-            } else if s.flag {
-                s.collector_step(&c);
-            } else if spurious < max_spurious && kani::any() {
-                spurious += 1;
-                s.collector_step(&c);
-            }
+// ------------------------------------------------------------------------------------------
+// Inductive proof over the interleaving model (unbounded schedule length):
+//   INV  I0  collector registers consistent with its program counter
+//        I1  a non-empty leaf word is "armed": its bit is in the bitmap summary, or a waker that found the leaf empty is
+//            about to set it, or the collector has already taken the summary and will still swap this leaf
+//        I2  a non-empty summary word is armed the same way one level up
+//        I3  a non-empty top word is armed: poll event pending, or a waker is about to raise it, or the main thread
+//            has consumed the event and is about to swap the top word
+//   base: INV holds initially;  step: ANY single atomic step of ANY thread from ANY state satisfying INV re-establishes
+//   INV;  conclusion: INV and quiescence (all wakes returned, no poll event pending, collector idle) imply that every
+//   word is zero -- and a bit is only ever cleared by the collector's leaf swap, which runs the handler: no wake-up
+//   is stranded, and each handler ran after its wake began.
+// ------------------------------------------------------------------------------------------
+impl St {
+    fn regs_ok(&self, c: &Cfg) -> bool {
+        let cur_slot_ok = self.t_rem != 0 && self.cbm < NB && c.slot[if self.cbm < NB { self.cbm } else { 0 }] == tz(self.t_rem);
+        match self.cpc {
+            0 | 1 => true,
+            2 => cur_slot_ok,
+            3 => cur_slot_ok && self.s_rem != 0 && self.cleaf == tz(self.s_rem) && self.cleaf < 2,
+            _ => false,
         }
-        // invariant at every point: a completed wake that has not been served yet is still "armed":
-        // its bit is set, and some wake that will raise (or has raised) the poll event is in flight, or the event is
-        // pending, or a collection is under way -- checked in its consequence at quiescence below.
-        k += 1;
     }
-    // quiescence: every waker returned, no poll event pending, collector idle
-    let mut done = true;
+    // the collector will still swap bitmap b's summary in the current collection
+    fn will_visit_sum(&self, c: &Cfg, b: usize) -> bool {
+        if self.cpc != 2 && self.cpc != 3 {
+            return false;
+        }
+        let cur = tz(self.t_rem);
+        let sb = c.slot[b];
+        let in_later_slot = sb != cur && (self.t_rem >> sb) & 1 == 1;
+        let later_in_cur_slot = sb == cur && b > self.cbm;
+        let now = self.cpc == 2 && self.cbm == b;
+        now || in_later_slot || later_in_cur_slot
+    }
+    fn will_swap_leaf(&self, b: usize, l: u8) -> bool {
+        self.cpc == 3 && self.cbm == b && (self.s_rem >> l) & 1 == 1
+    }
+    fn inv(&self, c: &Cfg) -> bool {
+        if !self.regs_ok(c) {
+            return false;
+        }
+        let mut ok = true;
+        let mut b = 0;
+        while b < NB {
+            let mut l = 0u8;
+            while l < 2 {
+                if self.leaf[b][l as usize] != 0 {
+                    let mut armed = (self.sum[b] >> l) & 1 == 1 || self.will_swap_leaf(b, l);
+                    let mut i = 0;
+                    while i < NW {
+                        armed |= c.active[i] && c.bm[i] == b && c.leaf[i] == l && self.wpc[i] == 1;
+                        i += 1;
+                    }
+                    ok &= armed;
+                }
+                l += 1;
+            }
+            if self.sum[b] != 0 {
+                let mut armed = (self.top >> c.slot[b]) & 1 == 1 || self.will_visit_sum(c, b);
+                let mut i = 0;
+                while i < NW {
+                    armed |= c.active[i] && c.bm[i] == b && self.wpc[i] == 2;
+                    i += 1;
+                }
+                ok &= armed;
+            }
+            b += 1;
+        }
+        if self.top != 0 {
+            let mut armed = self.flag || self.cpc == 1;
+            let mut i = 0;
+            while i < NW {
+                armed |= c.active[i] && self.wpc[i] == 3;
+                i += 1;
+            }
+            ok &= armed;
+        }
+        ok
+    }
+}
+
+fn any_state() -> St {
+    let mut s = St::new();
+    s.top = kani::any();
+    s.sum = [kani::any(), kani::any()];
+    s.leaf = [[kani::any(), kani::any()], [kani::any(), kani::any()]];
+    kani::assume(s.top < 4 && s.sum[0] < 4 && s.sum[1] < 4);
+    kani::assume(s.leaf[0][0] < 8 && s.leaf[0][1] < 8 && s.leaf[1][0] < 8 && s.leaf[1][1] < 8);
+    s.flag = kani::any();
     let mut i = 0;
     while i < NW {
-        if c.active[i] && s.wpc[i] != 4 {
-            done = false;
-        }
+        s.wpc[i] = kani::any();
+        kani::assume(s.wpc[i] <= 4);
         i += 1;
     }
-    kani::assume(done && !s.flag && s.cpc == 0);
-    i = 0;
+    s.cpc = kani::any();
+    s.t_rem = kani::any();
+    s.s_rem = kani::any();
+    s.cbm = kani::any();
+    s.cleaf = kani::any();
+    kani::assume(s.cpc <= 3 && s.t_rem < 4 && s.s_rem < 4 && s.cbm <= NB && s.cleaf < 2);
+    s
+}
+
+// @verif prop=C11,C12 tier=quick timeout=1200 mem=12 unwind=6
+// @enc (no repository code: the automata whose equality with BitMap::set / BitMap::drain / the wake_list nesting is established by w_set_equiv and w_drain_equiv on every run)
+// @sym the whole model state (all words, every waker's position, the collector's position and registers), the configuration (3 wakers with arbitrary targets in 2 bitmaps x 2 leaves x 3 bits, arbitrary slots), and which thread moves
+// @bound ONE atomic step from an arbitrary state satisfying INV (inductive: schedules of any length); 3 waking threads, 2 bitmaps
+// @assume sequential consistency at atomic-operation granularity (RMW-only protocol + the orderings asserted in step 1/1b); poll event = flag consumed before poll_wake starts
+#[kani::proof]
+#[kani::unwind(6)]
+fn wm_inductive_step() {
+    let c = any_cfg(NW);
+    let mut s = any_state();
+    kani::assume(s.inv(&c));
+    let who: u8 = kani::any();
+    kani::assume(who <= NW as u8);
+    if (who as usize) < NW {
+        let i = who as usize;
+        kani::assume(s.wpc[i] < 4);
+        s.waker_step(&c, i);
+    } else {
+        // the main thread may continue a collection, answer a poll event, or call poll_wake spuriously
+        s.collector_step(&c);
+    }
+    assert!(s.inv(&c), "C11: the wake protocol can reach a state where a set bit is not covered by any pending notification (lost wake-up)");
+    kani::cover!(who as usize == NW && s.cpc == 3, "collector reaches a leaf");
+    kani::cover!((who as usize) < NW && s.wpc[0] == 3, "waker about to call back");
+}
+
+// @verif prop=C11,C12 tier=quick timeout=600 mem=8 unwind=6
+// @enc (model only) base case and conclusion of the induction
+// @sym configuration; for the conclusion: any state satisfying INV
+// @bound none (state predicate)
+// @assume as wm_inductive_step
+#[kani::proof]
+#[kani::unwind(6)]
+fn wm_base_and_conclusion() {
+    let c = any_cfg(NW);
+    assert!(St::new().inv(&c), "INV must hold initially");
+    let s = any_state();
+    kani::assume(s.inv(&c));
+    let mut quiescent = !s.flag && s.cpc == 0;
+    let mut i = 0;
     while i < NW {
-        if c.active[i] {
-            assert!(s.served[i], "C11: a wake() returned but its handler was never run by a poll_wake() made in response (lost wake-up)");
-        }
+        quiescent &= s.wpc[i] == 0 || s.wpc[i] == 4;
         i += 1;
     }
-    assert!(s.words_clear(), "C11: a wake bit is stranded in the bitmap with no poll event pending");
-    kani::cover!(s.started >= 2, "two collections");
-    kani::cover!(s.callbacks >= 2, "two poll-waker callbacks");
-    kani::cover!(c.bm[0] != c.bm[1] && c.slot[0] == c.slot[1], "two bitmaps sharing a top-level slot");
-    kani::cover!(c.bm[0] == c.bm[1] && c.leaf[0] == c.leaf[1] && c.bit[0] != c.bit[1], "two wakers in the same leaf word");
-    kani::cover!(s.started > s.callbacks, "spurious collection");
-}
-
-// @verif prop=C11,C12 tier=quick timeout=1800 mem=16 unwind=30 unwindset=interleave.*\.0$:25
-// @enc (no repository code: interleaves the automata whose equality with BitMap::set / BitMap::drain / wake_list is established by w_set_equiv, w_drain_equiv, w_wake_list_equiv on every run)
-// @sym which thread moves at each of 24 steps; target (bitmap, leaf, bit) of each waker; top-level slot of each bitmap; whether the main thread makes a spurious poll_wake
-// @bound 2 waking threads (one wake each) + main thread; 2 bitmaps x 2 leaves x 3 bits; 24 atomic steps; <= 1 spurious collection; unfinished executions discarded
-// @assume sequential consistency at atomic-operation granularity (justified by the RMW-only protocol and the asserted orderings); poll event modelled as a flag consumed before poll_wake starts
-#[kani::proof]
-#[kani::unwind(30)]
-fn wm_two_wakers() {
-    interleave(2, 24, 1);
-}
-
-// @verif prop=C11 tier=thorough timeout=3400 mem=24 unwind=44 unwindset=interleave.*\.0$:41
-// @enc as wm_two_wakers
-// @sym as wm_two_wakers with 3 waking threads and 40 steps
-// @bound 3 waking threads; 40 atomic steps; <= 1 spurious collection
-// @assume as wm_two_wakers
-#[kani::proof]
-#[kani::unwind(44)]
-fn wm_three_wakers() {
-    interleave(3, 40, 1);
+    if quiescent {
+        assert!(s.words_clear(), "C11: at quiescence a wake bit is stranded with no poll event pending");
+    }
+    kani::cover!(quiescent, "quiescent state");
+    kani::cover!(!quiescent && s.top != 0, "busy state");
 }
 
 #[cfg(uazu_replay_wakemodel)]
